@@ -81,6 +81,109 @@ Section Rename.
     destruct (text_eqb_spec (e_digest e) (e_digest nfe)); [|contradiction].
     destruct (r_path r) eqn:Er; [congruence|]. cbn. auto.
   Qed.
+  (* ---- completeness of the double loop: a moved file whose bytes carry the identity of a missing path IS matched ---- *)
+  Definition view (x : path * record) : path * path * list entry := (fst x, r_path (snd x), r_entries (snd x)).
+  Lemma find_map_keep (F : record -> record) rel l : (forall r, r_path (F r) = r_path r) ->
+    find (fun r => path_eqb (r_path r) rel) (map F l) = option_map F (find (fun r => path_eqb (r_path r) rel) l).
+  Proof.
+    intros HF. induction l as [|r l IH]; [reflexivity|]. cbn [map find]. rewrite HF. destruct (path_eqb (r_path r) rel); [reflexivity|exact IH].
+  Qed.
+  Lemma sess_find_set_prev s h rel prev p :
+    option_map view (sess_find (sess_set_prev s h rel prev) p) = option_map view (sess_find s p).
+  Proof.
+    induction s as [|[k nl] s IH]; [reflexivity|]. cbn [sess_set_prev].
+    destruct (path_eqb_spec k h) as [->|Hk]; cbn [sess_find].
+    - destruct (is_prefix h p); [|reflexivity].
+      destruct (strip_prefix h p) as [|x xs] eqn:Es.
+      + destruct rel as [|y ys]; cbn [nl_set_prev nl_root].
+        * destruct (nl_root nl) as [r0|]; reflexivity.
+        * reflexivity.
+      + destruct rel as [|y ys]; cbn [nl_set_prev nl_records]; [reflexivity|].
+        rewrite (find_map_keep (fun r => if path_eqb (r_path r) (y :: ys) then set_prev r prev else r)).
+        * destruct (find _ (nl_records nl)) as [r0|]; [|reflexivity]. cbn [option_map]. destruct (path_eqb (r_path r0) (y :: ys)); reflexivity.
+        * intros r. destruct (path_eqb (r_path r) (y :: ys)); reflexivity.
+    - destruct (if is_prefix k p then _ else None) as [r0|]; [reflexivity|exact IH].
+  Qed.
+  Lemma dr_step_view hs t np st nf p :
+    option_map view (sess_find (dr_sess (dr_step Hb C hs t np st nf)) p) = option_map view (sess_find (dr_sess st) p).
+  Proof.
+    unfold dr_step. destruct (dr_abort st); [reflexivity|]. destruct (find_first_any _ _) as [nfe|]; [|reflexivity].
+    destruct (sess_find (dr_sess st) np) as [[hr r]|]; [|reflexivity].
+    destruct (find _ (r_entries r)).
+    - destruct (text_eqb _ _); [|reflexivity]. cbn [dr_sess].
+      destruct (r_path r); [destruct (parent_of hs hr); [apply sess_find_set_prev|reflexivity]|apply sess_find_set_prev].
+    - destruct (get C t np) as [[c|]|]; try reflexivity. destruct (text_eqb _ _); [|reflexivity]. cbn [dr_sess]. apply sess_find_set_prev.
+  Qed.
+  Lemma dr_step_mono hs t np st nf :
+    (forall x, In x (dr_found st) -> In x (dr_found (dr_step Hb C hs t np st nf))) /\
+    (dr_abort st = true -> dr_abort (dr_step Hb C hs t np st nf) = true).
+  Proof.
+    unfold dr_step. destruct (dr_abort st) eqn:Ea; [auto|]. split; [|discriminate].
+    destruct (find_first_any _ _) as [nfe|]; [|auto]. destruct (sess_find (dr_sess st) np) as [[hr r]|]; [|auto].
+    destruct (find _ (r_entries r)).
+    - destruct (text_eqb _ _); [|auto]. cbn [dr_found]. intros x Hx. right. exact Hx.
+    - destruct (get C t np) as [[c|]|]; auto. destruct (text_eqb _ _); [|auto]. cbn [dr_found]. intros x Hx. right. exact Hx.
+  Qed.
+  Lemma dr_step_hit hs t np st nf nfe hr r c :
+    dr_abort (dr_step Hb C hs t np st nf) = false -> identity_of hs nf = Some nfe ->
+    option_map view (sess_find (dr_sess st) np) = Some (hr, r_path r, r_entries r) ->
+    (forall e, In e (r_entries r) -> e_digest e = digest_text Hb (e_fmt e) c) ->
+    get C t np = Some (File c) -> digest_text Hb (e_fmt nfe) c = e_digest nfe ->
+    In nf (dr_found (dr_step Hb C hs t np st nf)).
+  Proof.
+    intros Ha Hid Hs Hcur Hg Hd. unfold dr_step in *. destruct (dr_abort st) eqn:Ea0; [congruence|].
+    unfold identity_of in Hid. rewrite Hid in *.
+    destruct (sess_find (dr_sess st) np) as [[hr' r']|]; [|discriminate]. cbn [option_map view fst snd] in Hs. injection Hs as -> Hp He.
+    destruct (find (fun e => fmt_eqb (e_fmt e) (e_fmt nfe)) (r_entries r')) as [e|] eqn:Ef.
+    - apply find_some in Ef. destruct Ef as [Hin Hf]. destruct (fmt_eqb_spec (e_fmt e) (e_fmt nfe)) as [Efm|]; [|discriminate].
+      assert (Ed : e_digest e = e_digest nfe) by (rewrite <- Hd, <- Efm; apply Hcur; rewrite <- He; exact Hin).
+      destruct (text_eqb_spec (e_digest e) (e_digest nfe)); [|contradiction]. cbn [dr_found]. left. reflexivity.
+    - rewrite Hg. destruct (text_eqb_spec (digest_text Hb (e_fmt nfe) c) (e_digest nfe)); [|contradiction]. cbn [dr_found]. left. reflexivity.
+  Qed.
+
+  Lemma inner_fold hs t np nfp : forall st,
+    let st' := fold_left (dr_step Hb C hs t np) nfp st in
+    (forall x, In x (dr_found st) -> In x (dr_found st')) /\ (dr_abort st = true -> dr_abort st' = true) /\
+    (forall p, option_map view (sess_find (dr_sess st') p) = option_map view (sess_find (dr_sess st) p)).
+  Proof.
+    induction nfp as [|nf nfp IH]; intros st; cbn [fold_left]; [auto|].
+    destruct (IH (dr_step Hb C hs t np st nf)) as [H1 [H2 H3]]. destruct (dr_step_mono hs t np st nf) as [M1 M2].
+    split; [auto|]. split; [auto|]. intros p. rewrite H3. apply dr_step_view.
+  Qed.
+  Lemma inner_hit hs t np nfp nf nfe hr r c : forall st,
+    dr_abort (fold_left (dr_step Hb C hs t np) nfp st) = false -> In nf nfp -> identity_of hs nf = Some nfe ->
+    option_map view (sess_find (dr_sess st) np) = Some (hr, r_path r, r_entries r) ->
+    (forall e, In e (r_entries r) -> e_digest e = digest_text Hb (e_fmt e) c) ->
+    get C t np = Some (File c) -> digest_text Hb (e_fmt nfe) c = e_digest nfe ->
+    In nf (dr_found (fold_left (dr_step Hb C hs t np) nfp st)).
+  Proof.
+    induction nfp as [|x nfp IH]; intros st Ha Hin Hid Hs Hcur Hg Hd; [destruct Hin|]. cbn [fold_left] in *.
+    destruct (inner_fold hs t np nfp (dr_step Hb C hs t np st x)) as [F1 [F2 _]]. cbn zeta in F1, F2.
+    destruct Hin as [->|Hin].
+    - apply F1. apply (dr_step_hit hs t np st nf nfe hr r c); auto.
+      destruct (dr_abort (dr_step Hb C hs t np st nf)) eqn:E; [rewrite (F2 eq_refl) in Ha; discriminate|reflexivity].
+    - apply IH; auto. rewrite dr_step_view. exact Hs.
+  Qed.
+  Theorem detect_renames_complete hs t sess newp nfp np nf nfe hr r c :
+    dr_abort (detect_renames Hb C hs t sess newp nfp) = false -> In np newp -> In nf nfp -> identity_of hs nf = Some nfe ->
+    sess_find sess np = Some (hr, r) -> (forall e, In e (r_entries r) -> e_digest e = digest_text Hb (e_fmt e) c) ->
+    get C t np = Some (File c) -> digest_text Hb (e_fmt nfe) c = e_digest nfe ->
+    In nf (dr_found (detect_renames Hb C hs t sess newp nfp)).
+  Proof.
+    unfold detect_renames. intros Ha Hnp Hnf Hid Hs Hcur Hg Hd.
+    assert (Hs0 : option_map view (sess_find (dr_sess (mkDR sess [] false)) np) = Some (hr, r_path r, r_entries r)) by (cbn [dr_sess]; rewrite Hs; reflexivity).
+    revert Ha Hs0. generalize (mkDR sess [] false). clear Hs.
+    induction newp as [|x newp IH]; intros st Ha Hs; [destruct Hnp|]. cbn [fold_left] in *.
+    assert (Houter : forall l st0, (forall y, In y (dr_found st0) -> In y (dr_found (fold_left (fun st np => fold_left (dr_step Hb C hs t np) nfp st) l st0))) /\
+                                   (dr_abort st0 = true -> dr_abort (fold_left (fun st np => fold_left (dr_step Hb C hs t np) nfp st) l st0) = true)).
+    { induction l as [|y l IHl]; intros st0; cbn [fold_left]; [auto|].
+      destruct (IHl (fold_left (dr_step Hb C hs t y) nfp st0)) as [A1 A2]. destruct (inner_fold hs t y nfp st0) as [B1 [B2 _]]. cbn zeta in B1, B2. split; auto. }
+    destruct Hnp as [->|Hnp].
+    - destruct (Houter newp (fold_left (dr_step Hb C hs t np) nfp st)) as [A1 A2]. apply A1.
+      apply (inner_hit hs t np nfp nf nfe hr r c st); auto.
+      destruct (dr_abort (fold_left (dr_step Hb C hs t np) nfp st)) eqn:E; [rewrite (A2 eq_refl) in Ha; discriminate|reflexivity].
+    - apply IH; auto. destruct (inner_fold hs t x nfp st) as [_ [_ B3]]. cbn zeta in B3. rewrite B3. exact Hs.
+  Qed.
 End Rename.
 
 (* ---- the rename map verify / diff / create apply to the recorded paths (MHLHistory.renamed_path_with_previous_path,
